@@ -138,8 +138,16 @@ def perFn (env : Env) (file : AFile) (real : GFile) : List String :=
       (f.name ++ "=" ++ verdict) :: go r.2 rest
   go { n := 0, ok := true } file
 
+/-- per ANF function: `in` (inside `InGoFragment`, fresh counter) or the reason it is outside -/
 def fragInfo (env : Env) (file : AFile) : List String :=
-  file.map fun f => f.name ++ "=" ++ (match Goml.GoFrag.outsideReason env file f with | none => "in" | some r => r)
+  let G := Goml.GoFrag.goodFns env file 0
+  let closed := Goml.GoFrag.closedOK env file 0 G
+  let rec go (st : St) : List AFn → List String
+    | [] => []
+    | f :: rest =>
+      (f.name ++ "=" ++ (match Goml.GoFrag.outsideReason env file 0 G closed st f with | none => "in" | some r => r)) ::
+        go (compileFn env st f).2 rest
+  go { n := 0, ok := true } file
 
 def clean (s : String) : String := s.map fun c => if c == '\t' || c == '\n' || c == ',' then ' ' else c
 
